@@ -359,6 +359,14 @@ def checkCase (lines : Array String) : Array String := Id.run do
       if bo.n ≤ 34 then
         a := a.prop id "C11" "built sound" (builtSoundB decls userE realG)
         a := a.prop id "C12" "direction/non-redundant" (builtOrderB decls userE realG bo.ranks)
+        -- cross-check of the mask form used for large graphs (a facet no property depends on)
+        a := a.cmp id "X-fast" "built sound" (toString (builtSoundB decls userE realG)) (toString (builtSoundFastB decls userE realG (topo realG)))
+      else if bo.n ≤ 400 then
+        -- large graphs: the same predicates with bit-mask reachability along a topological order
+        -- computed by the model's `Topo` on the REAL graph (`Theorems/SpecFast.lean`)
+        let ord := topo realG
+        a := a.prop id "C11" "built sound (mask form)" (builtSoundFastB decls userE realG ord)
+        a := a.prop id "C12" "direction (mask form)" (builtDirectionFastB decls userE realG bo.ranks ord (topo userG))
       a := a.prop id "C06" "data edges only between conflicts" ((realG.edges.drop userE.length).all (fun e => e.kind == .data && conflict (declOf decls e.src) (declOf decls e.tgt)))
       a := a.prop id "C13" "ranks = longest chain" (bo.ranks == longestChains userG)
       a := a.prop id "C18" "pops <= n^2+n" (decide (bo.pops ≤ bo.n * bo.n + bo.n))
@@ -370,6 +378,14 @@ def checkCase (lines : Array String) : Array String := Id.run do
          && bo.outgoing == (List.range bo.n).map (fun v => (children realG v).length))
     | "eqwith" :: rest => eqPert := (kv rest "pert").getD ""
     | "eqres" :: r :: rest =>
+      if lightCase then
+        -- large graphs: no model builds; the real answers decide C12 alone
+        if r != "panic" then
+          let st1 := (ops.zip ress).foldl (fun st p => realUserStep st p.1 p.2) (([], []) : List FnDecl × List Edge)
+          let st2 := (ops2.zip ress2).foldl (fun st p => realUserStep st p.1 p.2) (([], []) : List FnDecl × List Edge)
+          a := a.prop id "C12" s!"== iff same accepted calls (pert={eqPert})" ((r == "true") == (st1 == st2))
+          if r == "true" then a := a.prop id "C12" "equal graphs have equal ranks" ((kv rest "ranks_eq") == some "true")
+      else
       let (b1, _) := modelOps ops
       let (b2, _) := modelOps ops2
       match build b1, build b2 with
@@ -450,6 +466,7 @@ def checkCase (lines : Array String) : Array String := Id.run do
         a := a.prop id "C17" "iter_rev reverse topological" (topoOrderB realG.flip (unmap (kvCsv rest "iter_rev")))
         a := a.prop id "C17" "deserialised value: iter topological, iter_rev reverse topological"
           (topoOrderB realG (unmap (kvCsv rest "back_iter")) && topoOrderB realG.flip (unmap (kvCsv rest "back_iter_rev")))
+    | "ctx" :: c :: _ => a := { a with ctx := c }
     | "session" :: rest =>
       inSession := true; started := false; mons := #[]; runCfgs := #[]; nSessions := nSessions + 1
       sessCoop := (kv rest "coop") == some "1"
